@@ -420,9 +420,7 @@ theorem spec_dumpUnion {DW : DumpWorld} {cs : List Ty} {ks : List String} {dm : 
       (match optionalOther cs with
        | some other => if x.isNone then some .none else sp other x
        | none =>
-         if (match unionLiteral cs with
-             | some vs => vs.any fun v => Val.pyEq x v
-             | none => false) then some x
+         if unionLitHit cs x then some x
          else
            match specDispatch DW ks cs x with
            | some t => sp t x
@@ -437,14 +435,12 @@ theorem spec_dumpUnion {DW : DumpWorld} {cs : List Ty} {ks : List String} {dm : 
     | none => rfl
     | some t => exact h t (spec_specDispatch_mem hd) x
   have hgen : spec_okOf (dumpUnion.general DW cs ks dm x) =
-      (if (match unionLiteral cs with
-           | some vs => vs.any fun v => Val.pyEq x v
-           | none => false) then some x
+      (if unionLitHit cs x then some x
        else
          match specDispatch DW ks cs x with
          | some t => sp t x
          | none => none) := by
-    unfold dumpUnion.general
+    unfold dumpUnion.general unionLitHit
     rw [spec_literalVals]
     cases unionLiteral cs with
     | none => simpa using hbyClass
